@@ -269,7 +269,7 @@ pub fn run(args: &Args) -> i32 {
             // the invariants are evaluated on every prefix by the replay, so only leaves and
             // nodes at every depth need one call each
             for (k, detail) in oracle(cfg, hist, st) {
-                let e = local.entry(k.clone()).or_insert(Finding { key: k, detail: format!("[first_ttl={first_ttl} max_flows={max_flows} history={:?}] {detail}", idx.iter().map(|i| format!("{:?}", al[*i].outs)).collect::<Vec<_>>()), replay: json!({"check":"C15","first_ttl":first_ttl,"max_flows":max_flows,"history":idx}), weight: (hist.len(), 0), count: 0 });
+                let e = local.entry(k.clone()).or_insert_with(|| Finding { key: k, detail: format!("[first_ttl={first_ttl} max_flows={max_flows} history={:?}] {detail}", idx.iter().map(|i| format!("{:?}", al[*i].outs)).collect::<Vec<_>>()), replay: json!({"check":"C15","first_ttl":first_ttl,"max_flows":max_flows,"history":idx}), weight: (hist.len(), 0), count: 0 });
                 e.count += 1;
             }
             if sample.is_none() && idx.len() == d && ti % 37 == 0 {
@@ -279,7 +279,7 @@ pub fn run(args: &Args) -> i32 {
         });
         for (what, pn, hidx) in &stats.panics {
             let key = format!("{}:{what}", pn.key());
-            local.entry(key.clone()).or_insert(Finding { key, detail: format!("[first_ttl={first_ttl} history={hidx:?}] {what} panicked: {} at {}:{}", pn.message, pn.file, pn.line), replay: json!({"check":"C15","first_ttl":first_ttl,"max_flows":max_flows,"history":hidx}), weight: (hidx.len(), 0), count: 1 });
+            local.entry(key.clone()).or_insert_with(|| Finding { key, detail: format!("[first_ttl={first_ttl} history={hidx:?}] {what} panicked: {} at {}:{}", pn.message, pn.file, pn.line), replay: json!({"check":"C15","first_ttl":first_ttl,"max_flows":max_flows,"history":hidx}), weight: (hidx.len(), 0), count: 1 });
         }
         let mut a = agg.lock().unwrap();
         a.0 += stats.states;
